@@ -972,4 +972,31 @@ theorem entry_eq (s : State) (n : Name) :
   unfold entry abs
   exact get?_map_mk _ _ _
 
+theorem readAll_items (layer : Nat) (c : Bool) : ∀ (mp : List (Name × Entry)) (out : ReadOut),
+    Spec.readAll layer c mp = some out → ∀ item ∈ out, ∃ e ∈ mp,
+      e.2.1[layer]? = some item.2.1 ∧ item.1 = e.1 ∧ item.2.2 = (if c then some e.2.2 else none) := by
+  intro mp
+  induction mp with
+  | nil =>
+    intro out h item hi
+    simp only [Spec.readAll, Option.some.injEq] at h
+    subst h; simp at hi
+  | cons e r ih =>
+    intro out h item hi
+    simp only [Spec.readAll] at h
+    cases hd : e.2.1[layer]? with
+    | none => rw [hd] at h; simp at h
+    | some d =>
+      cases hr : Spec.readAll layer c r with
+      | none => rw [hd, hr] at h; simp at h
+      | some out' =>
+        rw [hd, hr] at h
+        simp only [Option.some.injEq] at h
+        subst h
+        rcases List.mem_cons.1 hi with hi | hi
+        · subst hi
+          exact ⟨e, by simp, hd, rfl, rfl⟩
+        · obtain ⟨e', he', h1, h2, h3⟩ := ih out' hr item hi
+          exact ⟨e', by simp [he'], h1, h2, h3⟩
+
 end Pew.LaserEdit
